@@ -225,6 +225,11 @@ class SymExec:
                     raise Unsupported(f'field {pr["i"]} of {str(v)[:60]}')
             elif k == 'downcast':
                 pass
+            elif k == 'index' and isinstance(v, tuple) and v and v[0] == 'bytes':
+                idx = locs[pr['local']]
+                if not isinstance(idx, Aff):
+                    raise Unsupported('index by a non-integer')
+                v = ('byteat', idx, v[1])
             else:
                 raise Unsupported('projection ' + k)
         return v
